@@ -14,6 +14,9 @@ Driver handler for the d06 extension of C06.
       The table is the oracle column for `NormalizeString`.
 
   c06.stringval <str> <normal>    → <val>                    cty.StringVal
+  c06.setvalc (<val>*) ((<tag>*)*) (<hash>*)  → ok <val> | panic | unmodelled   cty.SetVal on capsule-bearing members:
+                                                              the model's `setValH` on the members with their capsule leaves
+                                                              tagged (`D06.decap`); the harness tags the real result alike
   c06.equalsc <val> (<tag>*) <val> (<tag>*)  → ok <val> | …  Value.Equals on capsule-bearing operands, capsule
                                                               leaves compared by tag (`D06.decap`)
 -/
@@ -80,4 +83,15 @@ def handleD06 : Handler := fun op args =>
     let cb ← cb.mapM Sexp.decNat
     if D06.capsCount a.v != ca.length || D06.capsCount b.v != cb.length then pure "bad-tags"
     else pure (resTag (fun v => toString v.toSexp) (Value.equals (D06.decap (D06.cidOf ca) a) (D06.decap (D06.cidOf cb) b)))
+  | "c06.setvalc", [.list vs, .list cols, .list hs] => do
+    let vs ← vs.mapM Value.ofSexp
+    let cols ← cols.mapM fun c => match c with
+      | .list l => l.mapM Sexp.decNat
+      | _ => none
+    let hs ← hs.mapM Sexp.decInt
+    if vs.length != cols.length then pure "bad-tags"
+    else
+      let ms := (vs.zip cols).map fun p => D06.decap (D06.cidOf p.2) p.1
+      if (vs.zip cols).any (fun p => D06.capsCount p.1.v != p.2.length) then pure "bad-tags"
+      else pure (resTag (fun v => toString v.toSexp) (Value.setValH ms hs))
   | _, _ => none
